@@ -6,6 +6,22 @@ ROOT = os.path.dirname(os.path.dirname(os.path.abspath(__file__)))
 
 # property id -> (technique, level text, level note, design ref)
 CHECKS = {
+ "C06": ("static CFG ordering and who-may-lock analysis of subscriber.go / subscription.go / observable.go: compare-and-swap dominates the finalizer run (UNSUB-FLIPS-FIRST), query methods never acquire the producer lock (call-graph over same-type methods), terminal-before-close, Wait's signalling channel discipline (WAIT-SIGNAL), Collect's wait-before-return and returned variables (COLLECT-WAITS)",
+         "Static check of the structural premises behind 'Unsubscribe cuts delivery' and 'Wait/Collect tell the truth': the status is closed before finalizers run (so, with the Next gate, a notification started afterwards is refused), query methods and Unsubscribe are callable from inside callbacks, terminals are delivered before the subscriber closes, Wait blocks only on a buffered channel signalled solely by a teardown it registers, Collect waits before every return and returns what its observer gathered, Unsubscribe is idempotent. Decided exhaustively for the three core files; the real-time claim is the argued consequence.",
+         "Trusted: sync/atomic, sync.Mutex, channel semantics.",
+         "DESIGN.md section 4, C06"),
+ "C10": ("static structural clauses: lock-set guarded-by analysis of the five subjects (GUARDED-BY), status gates and registration under the gate (SUBJECT-GATE), terminal stored before broadcast / observers dropped / removal teardown (SUBJECT-TERMINAL), backlog replay before stored terminal (REPLAY-BEFORE-TERMINAL), single-observer guard (UNICAST-SINGLE), feature-by-feature sibling cross-check (SIBLING-TABLE), broadcasts under the mutex",
+         "Narrow claim. Linearizability over concurrent histories is NOT decided (no static argument in reach). Decided: the locking and ordering discipline on which the sequential definitions and the linearization argument rest, for all five subjects, plus agreement between the four broadcasting siblings. One test-pinned violation (unicast delivers the stored terminal before its backlog to a late subscriber) is a known finding.",
+         "Trusted: sync.Mutex and sync.Map semantics.",
+         "DESIGN.md section 4, C10"),
+ "C11": ("static structural clauses: lock-set analysis of Share's per-application state with inferred 'requires lock' closures (SHARE-GUARDED), control dependence of the upstream subscribe site on the created-flag / no-live-connection guard (SINGLE-CONNECT), once-per-path reference-count pairing (REFCOUNT-PAIRING), guarded fields of the connectable observable (CONNECTABLE-GUARDED), configuration plumbing of ShareReplay",
+         "Narrow claim. Event histories (subscribe/unsubscribe/notification/connect sequences) are NOT decided. Decided: the discipline that makes 'at most one live upstream subscription' true — connection state only touched under the mutex, upstream subscribed only where a new connection was installed / no live connection exists, reference count changed exactly once per (un)subscription under the lock with the zero test after the decrement.",
+         "Trusted: sync.Mutex; subjects honour C10. One read of Share's connection by its own creator before the source is subscribed is accepted structurally (see DESIGN.md, false alarm corrected).",
+         "DESIGN.md section 4, C11"),
+ "C13": ("static lock-set discipline (Eraser) by data-flow of held locks over go/cfg: fields of the goroutine-safe types (CONSISTENT-PROTECTION/types), closure variables of safe operators reachable from possibly-concurrent emission contexts (CONSISTENT-PROTECTION/operators), Share state, lock pairing",
+         "Static discipline check: reports every location of the state the property names that is not consistently protected (atomic, concurrency-safe type, one common mutex, or ordered by S1-S4) — for 9 types (~220 field accesses) and the closure variables of all safe operators. It found the connectable-observable race (fixed; confirmed by the race detector). It does not prove absence of all races in the Go memory model and executes nothing.",
+         "Trusted: sync, sync/atomic, channels, xsync/xatomic wrappers; values reached through pointers handed to helpers are checked inside the helper.",
+         "DESIGN.md section 4, C13"),
  "C01": ("static analysis of the contract-enforcing types: CFG dominance of every delivery by the status gate (GATE), enumeration of all status writes (STATUS-MONOTONE), use-discipline of the destination parameter in every Observable implementation (WRAP), subject gates (SUBJECT-GATE), refusal branches (DROP-HOOK), lock region (LOCK-REGION)",
          "Static check of the structural premises from which the notification grammar follows for every pipeline and schedule: each delivery in subscriberImpl/observerImpl/subjects is dominated by the open-status test or a won compare-and-swap, the status only moves away from open, every Observable implementation wraps its destination, refused notifications reach the hook. These premises are decided exhaustively on every run; the short interleaving argument that turns them into the property is written in DESIGN.md and is not machine-checked. One test-asserted violation (observer stays open after a panicking Next) is a known finding.",
          "Trusted: sync/atomic and sync.Mutex; users' own Observer implementations are out of scope.",
